@@ -7,7 +7,7 @@
      dh_pair_injective pub dh : equal shared secrets come from the same unordered pair of public keys
    They are hypotheses, not axioms, and are not verified of the real primitives. *)
 From Coq Require Import NArith List.
-From Virel Require Import Lib.U64 Model.Frame Proofs.Frame.
+From Virel Require Import Lib.U64 Model.Frame Proofs.Frame Proofs.FrameConc.
 Import ListNotations.
 Open Scope N_scope.
 
@@ -250,6 +250,72 @@ Theorem C14_receiver_terminates : forall (key : Type) (key_eqb : key -> key -> b
   forall k s, snd (recv key_eqb k s) <> RFuel.
 Proof. exact (@recv_fuel_enough). Qed.
 Print Assumptions C14_receiver_terminates.
+
+(* ------------------------------------------------------------------ part 3: several senders on one connection
+   (Model/Frame.v: run_schedule).  sendPacketLock hands a frame to the socket with ONE Write; the runtime serialises
+   whole Writes; a schedule is the order in which the Writes of the senders got the socket. *)
+
+(* whatever the schedule, the Writes that went out are a merge of the senders' queues: every sender's Writes in its
+   order, followed by what it still has pending, are its queue (none lost, none twice, none invented) *)
+Theorem C14_schedule_is_a_merge : forall (A : Type) (sched : list nat) (queues : list (list A)) out rest,
+  run_schedule sched queues = (out, rest) -> forall i, of_sender i out ++ nth i rest [] = nth i queues [].
+Proof. exact (@run_schedule_merge). Qed.
+Print Assumptions C14_schedule_is_a_merge.
+
+Theorem C14_complete_schedule_exactly_once : forall (A : Type) (sched : list nat) (queues : list (list A)) out rest,
+  run_schedule sched queues = (out, rest) -> Forall (fun q => q = []) rest ->
+  forall i, of_sender i out = nth i queues [].
+Proof. exact (@run_schedule_complete). Qed.
+Print Assumptions C14_complete_schedule_exactly_once.
+
+(* the framing function over concatenations: parse (f1 ++ f2 ++ ... ++ rest) = b1 :: b2 :: ... :: parse rest *)
+Theorem C14_framing_of_concatenation : forall bodies rest fuel, Forall (fun b => blen b <= FRAME_LIMIT) bodies ->
+  bparse (length bodies + fuel) (concat (map bframe bodies) ++ rest) =
+  let '(l, e) := bparse fuel rest in (bodies ++ l, e).
+Proof. exact framing_of_concatenation. Qed.
+Print Assumptions C14_framing_of_concatenation.
+
+(* one Write per frame: under EVERY schedule the byte stream is a concatenation of whole frames ... *)
+Theorem C14_concurrent_stream_is_whole_frames : forall sched (senders : list (list (list N))),
+  wire_bytes writes_atomic sched senders = concat (map bframe (scheduled sched senders)).
+Proof. exact wire_bytes_atomic. Qed.
+Print Assumptions C14_concurrent_stream_is_whole_frames.
+
+(* ... which the receiver's framing cuts into exactly the bodies that were written, in the order of the schedule *)
+Theorem C14_concurrent_frames_never_interleave : forall sched (senders : list (list (list N))),
+  Forall (Forall (fun b => blen b <= FRAME_LIMIT)) senders ->
+  forall fuel, (length (scheduled sched senders) < fuel)%nat ->
+  bparse fuel (wire_bytes writes_atomic sched senders) = (scheduled sched senders, BEof).
+Proof. exact conc_framing. Qed.
+Print Assumptions C14_concurrent_frames_never_interleave.
+
+(* symbolic level: senders hold (packet, nonce) pairs; under every schedule the receiver delivers exactly the scheduled
+   packets, once each, and reaches the end of the stream without an error *)
+Theorem C14_concurrent_senders_delivery_exact : forall (key : Type) (key_eqb : key -> key -> bool), eqb_correct key_eqb ->
+  forall k sched (senders : list (list ((N * list N) * N))),
+  Forall (Forall (fun x => pkt_ok (fst x))) senders ->
+  recv key_eqb k (wire_chunks (sym_writes_atomic k) sched senders) = (map to_wire (map fst (scheduled sched senders)), REof) /\
+  deliver (fst (recv key_eqb k (wire_chunks (sym_writes_atomic k) sched senders))) = map fst (scheduled sched senders).
+Proof. exact (@conc_delivery). Qed.
+Print Assumptions C14_concurrent_senders_delivery_exact.
+
+(* prefix and body in TWO Writes are not enough: a schedule that lets another sender's prefix in between makes the
+   receiver refuse genuine frames (bytes: the stream, what the framing makes of it, and the same schedule with one
+   Write per frame; a schedule that happens not to interleave is harmless) *)
+Theorem C14_two_writes_per_frame_refuted :
+  wire_bytes writes_split [0; 1; 0; 1]%nat [[[1; 2; 3]]; [[9; 9; 9; 9; 9]]] = [3; 0; 0; 0; 5; 0; 0; 0; 1; 2; 3; 9; 9; 9; 9; 9] /\
+  bparse 10 (wire_bytes writes_split [0; 1; 0; 1]%nat [[[1; 2; 3]]; [[9; 9; 9; 9; 9]]]) = ([[5; 0; 0]], BTooBig 50462976) /\
+  bparse 10 (wire_bytes writes_atomic [0; 1; 0; 1]%nat [[[1; 2; 3]]; [[9; 9; 9; 9; 9]]]) = ([[1; 2; 3]; [9; 9; 9; 9; 9]], BEof) /\
+  bparse 10 (wire_bytes writes_split [0; 0; 1; 1]%nat [[[1; 2; 3]]; [[9; 9; 9; 9; 9]]]) = ([[1; 2; 3]; [9; 9; 9; 9; 9]], BEof).
+Proof. exact split_writes_refuted_bytes. Qed.
+Print Assumptions C14_two_writes_per_frame_refuted.
+
+Theorem C14_two_writes_per_frame_refuted_symbolic :
+  recv free_key_eqb (free_kdf 1 (free_dh 1 2)) (wire_chunks (sym_writes_split (free_kdf 1 (free_dh 1 2))) [0; 1; 0; 1]%nat [[((2, [7; 7; 7]), 100)]; [((3, [8]), 101)]]) = ([], RErr E_OPEN) /\
+  recv free_key_eqb (free_kdf 1 (free_dh 1 2)) (wire_chunks (sym_writes_atomic (free_kdf 1 (free_dh 1 2))) [0; 1; 0; 1]%nat [[((2, [7; 7; 7]), 100)]; [((3, [8]), 101)]]) = ([(4, [7; 7; 7]); (5, [8])], REof) /\
+  recv free_key_eqb (free_kdf 1 (free_dh 1 2)) (wire_chunks (sym_writes_atomic (free_kdf 1 (free_dh 1 2))) [1; 0]%nat [[((2, [7; 7; 7]), 100)]; [((3, [8]), 101)]]) = ([(5, [8]); (4, [7; 7; 7])], REof).
+Proof. exact split_writes_refuted_sym. Qed.
+Print Assumptions C14_two_writes_per_frame_refuted_symbolic.
 
 (* ------------------------------------------------------------------ what the code does NOT establish
    (KNOWN_FINDINGS.json: C14-reconnect, C14-reflect).  These are theorems about the model of the code as it is. *)
